@@ -57,6 +57,14 @@ def main():
             if rc:
                 res["error"] = "patch does not apply: " + (out + out2)[-500:]
                 return res
+            # a 3-way merge that left conflict markers, or a fuzzy patch that broke the syntax, is not an application
+            rcc, changed = sh(["git", "diff", "--name-only", "HEAD"], cwd=wt)
+            for f in changed.split():
+                body = (wt / f).read_text(errors="replace") if (wt / f).exists() else ""
+                bad = "<<<<<<< " in body or (f.endswith(".py") and sh(["/venv/bin/python", "-m", "py_compile", str(wt / f)])[0] != 0)
+                if bad:
+                    res["error"] = f"patch does not apply cleanly to the current tree (conflict in {f}): rebase it by hand"
+                    return res
             res["rebased"] = True
             rcd, newdiff = sh(["git", "diff", "HEAD"], cwd=wt)
             res["rebased_diff"] = newdiff
